@@ -17,7 +17,7 @@ package main
 //   glist I W               ledger view: GetAddresses of both classes  NAME:cls:used
 //   found I W               managed addresses of W that have history on I's node chain
 //   export I W J            ExportWallet -> J               -> ok ex=.. in=..
-//   impks I J               ImportWallet(J)                 -> ok W ex=.. in=.. | err-dup | err
+//   impks I J               ImportWallet(J)                 -> ok W | err-dup | err
 //   impmn I W HE HI         ImportWalletWithMnemonic(secret W, hints) -> same
 //   restart I               close + reopen the wallet database (fresh WalletManager)
 //   chpub I PASS            KeystoreManager.ChangePubPassphrase
@@ -213,12 +213,7 @@ func (x *ksExec) afterImport(in *ksInst, id string, err error) string {
 	e.wallets[w] = id
 	e.walletRev[id] = w
 	x.bindAll(in, w)
-	am := in.am(id)
-	if am == nil {
-		return "err"
-	}
-	ex, inn := am.VerifNextIndexes()
-	return fmt.Sprintf("ok %s ex=%d in=%d", w, ex, inn)
+	return "ok " + w
 }
 
 func (x *ksExec) Exec(a []string) string {
@@ -467,7 +462,7 @@ func (x *ksExec) Exec(a []string) string {
 		}
 		ma, err := am.Address(enc)
 		if err != nil {
-			return "err-noaddr"
+			return "err"
 		}
 		pub := ma.PubKey()
 		// independent recomputation of the address the public key commits to
